@@ -344,7 +344,10 @@ def syncDays (d : Defects) (rights : List Bool) (src : Replica) (room : Nat) :
 def pull (d : Defects) (rights : List Bool) (dst src : Replica) (room : Nat) : PullResult :=
   let rem := roomDef src room
   let loc := roomDef dst room
-  let history := !(rem.hist.isSome && loc.hist == rem.hist && loc.lastDate == rem.lastDate)
+  -- intended: the shortcut through the last day is only sound when the summary covers every entity; without it
+  -- the full history is compared
+  let history := !d.summaryFirstEntityOnly ||
+    !(rem.hist.isSome && loc.hist == rem.hist && loc.lastDate == rem.lastDate)
   let (dst', modified, f) :=
     if history then
       let days := (roomLog src room).filter fun x =>
